@@ -173,6 +173,14 @@ fn emit_rt<T: Reg + Encode + Decode>(ctx: &mut Ctx, g: &mut G, v: &T) {
 	let r = guarded(|| T::decode(&mut slice));
 	m.insert("out".into(), bytes_json(&out));
 	m.insert("tail".into(), bytes_json(&tail));
+	#[cfg(feature = "bytes")]
+	{
+		let b = bytes::Bytes::copy_from_slice(&buf);
+		let rb = guarded(|| parity_scale_codec::decode_from_bytes::<T>(b));
+		let (res, v) = res_json(&rb);
+		m.insert("bres".into(), json!(res));
+		m.insert("bdv".into(), v);
+	}
 	match r {
 		Ok(Ok(d)) => {
 			m.insert("res".into(), json!("ok"));
@@ -343,6 +351,34 @@ fn run_json<T: Reg + Decode>(be: &str, st: &[W], inp: &[u8], seed: u64) -> Value
 	Value::Object(m)
 }
 
+/// Single wrapper layers applied statically (no type erasure), directly on a slice: the only way
+/// generic hooks such as `scale_internal_decode_bytes` can be reached through a wrapper.
+fn static_run_json<T: Reg + Decode>(kind: &str, inp: &[u8]) -> Value {
+	let mut s = inp;
+	let mut cnt: Vec<Value> = vec![];
+	let mut used: Vec<Value> = vec![];
+	let (st, r): (Value, Result<Result<T, Error>, ()>) = match kind {
+		"sc" => {
+			let mut c = parity_scale_codec::CountedInput::new(&mut s);
+			let r = guarded(|| T::decode(&mut c));
+			cnt.push(digits(c.count() as u128, 8));
+			(json!([W::Counted.json()]), r)
+		},
+		"sm" => {
+			let mut m = parity_scale_codec::MemTrackingInput::new(&mut s, usize::MAX);
+			let r = guarded(|| T::decode(&mut m));
+			used.push(digits(m.used_mem() as u128, 8));
+			(json!([W::Mem(usize::MAX).json()]), r)
+		},
+		_ => {
+			let r = guarded(|| T::decode_with_depth_limit(u32::MAX, &mut s));
+			(json!([W::Depth(u32::MAX).json()]), r)
+		},
+	};
+	let (res, v) = res_json(&r);
+	json!({"be": "slice", "st": st, "res": res, "v": v, "n": inp.len() - s.len(), "cnt": cnt, "used": used})
+}
+
 const BACKENDS: &[&str] = &[
 	"slice",
 	"rec",
@@ -442,6 +478,9 @@ pub fn drive_dec<T: Reg + Encode + Decode>(ctx: &mut Ctx, mem_tracking: bool) {
 				for be in BACKENDS {
 					runs.push(run_json::<T>(be, &[], &inp, g.u64()));
 				}
+				for k in ["sc", "sm", "sd"] {
+					runs.push(static_run_json::<T>(k, &inp));
+				}
 				let full = ctx.tier == "thorough";
 				for (i, st) in stacks.iter().enumerate().skip(1) {
 					if full {
@@ -459,6 +498,7 @@ pub fn drive_dec<T: Reg + Encode + Decode>(ctx: &mut Ctx, mem_tracking: bool) {
 				for be in ["slice", "rec", "unk"] {
 					runs.push(run_json::<T>(be, &[W::Counted], &inp, 0));
 				}
+				runs.push(static_run_json::<T>("sc", &inp));
 				runs.push(run_json::<T>("rec", &[W::Counted, W::Counted], &inp, 0));
 				runs.push(run_json::<T>("unk", &[W::Depth(u32::MAX), W::Counted, W::Mem(usize::MAX)], &inp, 0));
 			},
@@ -656,6 +696,603 @@ pub mod compact {
 					}
 				}
 			},
+		}
+	}
+}
+
+// ------------------------------------------------------------------ C13: declared lengths
+
+#[cfg(feature = "max-encoded-len")]
+pub fn drive_mel<T: Reg + Encode + parity_scale_codec::MaxEncodedLen>(ctx: &mut Ctx, cel: bool) {
+	let tn = T::name();
+	if !ctx.wants(&tn) {
+		return;
+	}
+	let mut g = ctx.rng_for(&tn, 5);
+	let decl = guarded(|| T::max_encoded_len());
+	let mut best: Option<(T, Vec<u8>)> = None;
+	let n = 60 * ctx.scale;
+	for _ in 0..n {
+		let v = T::gen(&mut g);
+		if let Ok(b) = guarded(|| v.encode()) {
+			if best.as_ref().map(|(_, bb)| b.len() > bb.len()).unwrap_or(true) {
+				best = Some((v, b));
+			}
+		}
+	}
+	let mut m = header::<T>("mel");
+	match decl {
+		Ok(d) => {
+			m.insert("res".into(), json!("ok"));
+			m.insert("decl".into(), digits(d as u128, 8));
+		},
+		Err(()) => {
+			m.insert("res".into(), json!("panic"));
+			m.insert("decl".into(), digits(0, 8));
+		},
+	}
+	m.insert("cel".into(), json!(cel));
+	if let Some((v, b)) = best {
+		m.insert("v".into(), v.abs());
+		m.insert("out".into(), bytes_json(&b));
+	}
+	ctx.emit(&tn, Value::Object(m));
+}
+
+pub fn drive_fixed<T: Reg + Encode + Decode>(ctx: &mut Ctx) {
+	let tn = T::name();
+	if !ctx.wants(&tn) {
+		return;
+	}
+	let mut m = header::<T>("fix");
+	let f = guarded(|| T::encoded_fixed_size());
+	match f {
+		Ok(Some(n)) => { m.insert("res".into(), json!("ok")); m.insert("fixed".into(), json!(n)); },
+		Ok(None) => { m.insert("res".into(), json!("ok")); m.insert("fixed".into(), json!(-1)); },
+		Err(()) => { m.insert("res".into(), json!("panic")); m.insert("fixed".into(), json!(-1)); },
+	}
+	// a few values: every one must have the fixed size
+	let mut g = ctx.rng_for(&tn, 6);
+	let v = T::gen(&mut g);
+	m.insert("v".into(), v.abs());
+	m.insert("out".into(), bytes_json(&guarded(|| v.encode()).unwrap_or_default()));
+	ctx.emit(&tn, Value::Object(m));
+}
+
+
+// ------------------------------------------------------------------ C18: DecodeLength
+
+pub fn drive_len<T: Reg + Encode + parity_scale_codec::DecodeLength>(ctx: &mut Ctx, first: fn(&Value) -> Value) {
+	let tn = T::name();
+	if !ctx.wants(&tn) {
+		return;
+	}
+	let mut g = ctx.rng_for(&tn, 7);
+	let mut vals: Vec<T> = (0..(25 * ctx.scale)).map(|_| T::gen(&mut g)).collect();
+	for l in [0usize, 1, 63, 64, 65, 16383, 16384] {
+		if let Some(v) = T::gen_len(&mut g, l) {
+			vals.push(v);
+		}
+	}
+	for v in vals {
+		let mut m = header::<T>("len");
+		let out = match guarded(|| v.encode()) { Ok(o) => o, Err(()) => continue };
+		let a = v.abs();
+		// the collection whose count is peeked: the value itself or the first tuple member
+		m.insert("coll".into(), first(&a));
+		let r = guarded(|| T::len(&out));
+		match r {
+			Ok(Ok(n)) => { m.insert("res".into(), json!("ok")); m.insert("n".into(), digits(n as u128, 8)); },
+			Ok(Err(_)) => { m.insert("res".into(), json!("err")); m.insert("n".into(), digits(0, 8)); },
+			Err(()) => { m.insert("res".into(), json!("panic")); m.insert("n".into(), digits(0, 8)); },
+		}
+		// keep the record small: only the first bytes matter for the count
+		m.insert("out".into(), bytes_json(&out[..out.len().min(8)]));
+		ctx.emit(&tn, Value::Object(m));
+	}
+}
+
+// ------------------------------------------------------------------ C07: entry points
+
+/// Output that is not an io::Write (takes the direct `impl Output` route)
+pub struct DirectSink(pub Vec<u8>, pub usize);
+impl parity_scale_codec::Output for DirectSink {
+	fn write(&mut self, bytes: &[u8]) {
+		self.1 += 1;
+		self.0.extend_from_slice(bytes);
+	}
+}
+/// io::Write sink that accepts at most 3 bytes per `write` call (write_all must loop)
+#[cfg(feature = "std")]
+pub struct IoSink(pub Vec<u8>);
+#[cfg(feature = "std")]
+impl std::io::Write for IoSink {
+	fn write(&mut self, buf: &[u8]) -> std::io::Result<usize> {
+		let n = buf.len().min(3);
+		self.0.extend_from_slice(&buf[..n]);
+		Ok(n)
+	}
+	fn flush(&mut self) -> std::io::Result<()> {
+		Ok(())
+	}
+}
+
+pub fn alt(kind: &str, r: Result<Vec<u8>, ()>) -> Value {
+	match r {
+		Ok(b) => json!({"kind": kind, "res": "ok", "out": bytes_json(&b)}),
+		Err(()) => json!({"kind": kind, "res": "panic", "out": []}),
+	}
+}
+
+pub fn entry_points<T: Encode>(v: &T) -> Vec<Value> {
+	let mut alts = vec![];
+	alts.push(alt("to_vec", guarded(|| {
+		// into a vector that already holds data: the encoding must be appended
+		let mut d = vec![9u8, 9, 9];
+		v.encode_to(&mut d);
+		d.split_off(3)
+	})));
+	alts.push(alt("direct", guarded(|| {
+		let mut d = DirectSink(vec![], 0);
+		v.encode_to(&mut d);
+		d.0
+	})));
+	#[cfg(feature = "std")]
+	alts.push(alt("io", guarded(|| {
+		let mut d = IoSink(vec![]);
+		v.encode_to(&mut d);
+		d.0
+	})));
+	alts.push(alt("dyn", guarded(|| {
+		let mut d = DirectSink(vec![], 0);
+		{
+			let o: &mut dyn parity_scale_codec::Output = &mut d;
+			v.encode_to(o);
+		}
+		d.0
+	})));
+	alts.push(alt("using", guarded(|| v.using_encoded(|b| b.to_vec()))));
+	alts.push(alt("twice", guarded(|| v.encode())));
+	match guarded(|| v.encoded_size()) {
+		Ok(n) => alts.push(json!({"kind":"size","res":"ok","n":n})),
+		Err(()) => alts.push(json!({"kind":"size","res":"panic","n":0})),
+	}
+	alts
+}
+
+pub fn drive_entries<T: Reg + Encode>(ctx: &mut Ctx) {
+	let tn = T::name();
+	if !ctx.wants(&tn) {
+		return;
+	}
+	let mut g = ctx.rng_for(&tn, 8);
+	let mut vals: Vec<T> = (0..(12 * ctx.scale)).map(|_| T::gen(&mut g)).collect();
+	if let Some(v) = T::gen_len(&mut g, 70) {
+		vals.push(v);
+	}
+	for v in vals {
+		let mut m = header::<T>("enc");
+		m.insert("v".into(), v.abs());
+		match guarded(|| v.encode()) {
+			Ok(out) => {
+				m.insert("res".into(), json!("ok"));
+				m.insert("out".into(), bytes_json(&out));
+			},
+			Err(()) => {
+				m.insert("res".into(), json!("panic"));
+				m.insert("out".into(), json!([]));
+			},
+		}
+		m.insert("alts".into(), Value::Array(entry_points(&v)));
+		ctx.emit(&tn, Value::Object(m));
+	}
+}
+
+// ------------------------------------------------------------------ C16: EncodeLike pairs
+
+pub fn assert_like<A: parity_scale_codec::EncodeLike<B>, B: Encode>() {}
+
+/// `a` is declared to encode like the `B`-value `b`: log a's bytes against B's descriptor and
+/// what B's decoder makes of them.
+pub fn emit_like<A: Encode, B: Reg + Decode>(ctx: &mut Ctx, family: &str, a: &A, b: &B) {
+	let mut m = header::<B>("like");
+	m.insert("family".into(), json!(family));
+	m.insert("v".into(), b.abs());
+	let out = match guarded(|| a.encode()) {
+		Ok(o) => o,
+		Err(()) => {
+			m.insert("res".into(), json!("panic"));
+			ctx.emit(family, Value::Object(m));
+			return;
+		},
+	};
+	m.insert("res".into(), json!("ok"));
+	m.insert("out".into(), bytes_json(&out));
+	let mut s = &out[..];
+	let r = guarded(|| B::decode(&mut s));
+	let (res, v) = res_json(&r);
+	m.insert("dres".into(), json!(res));
+	m.insert("dv".into(), v);
+	m.insert("dn".into(), json!(out.len() - s.len()));
+	m.insert("alts".into(), Value::Array(entry_points(a)));
+	ctx.emit(family, Value::Object(m));
+}
+
+#[macro_export]
+macro_rules! like {
+	($ctx:expr, $family:expr, $A:ty => $Bdecl:ty, $B:ty, |$b:ident| $a:expr) => {{
+		$crate::drivers::assert_like::<$A, $Bdecl>();
+		let mut g = $ctx.rng_for($family, 9);
+		for _ in 0..(15 * $ctx.scale) {
+			#[allow(unused_mut)]
+			let mut $b: $B = <$B as $crate::reg::Reg>::gen(&mut g);
+			let a: $A = $a;
+			$crate::drivers::emit_like::<$A, $B>($ctx, $family, &a, &$b);
+		}
+	}};
+}
+
+// ------------------------------------------------------------------ C15: EncodeAppend histories
+
+pub mod append {
+	use super::*;
+	use parity_scale_codec::{EncodeAppend, EncodeLike};
+
+	fn ref_compact(n: u64) -> Vec<u8> {
+		// the format's count prefix, written from its definition (independent of the crate)
+		if n < 1 << 6 { vec![(n as u8) << 2] }
+		else if n < 1 << 14 { (((n as u16) << 2) | 1).to_le_bytes().to_vec() }
+		else if n < 1 << 30 { (((n as u32) << 2) | 2).to_le_bytes().to_vec() }
+		else { let mut v = vec![3u8]; v.extend_from_slice(&(n as u32).to_le_bytes()); v }
+	}
+
+	pub fn step_json(batch_abs: Value, r: Result<Result<Vec<u8>, Error>, ()>, keep: &mut Option<Vec<u8>>) -> Value {
+		match r {
+			Ok(Ok(out)) => {
+				let j = json!({"b": batch_abs, "res": "ok", "out": bytes_json(&out)});
+				*keep = Some(out);
+				j
+			},
+			Ok(Err(_)) => { *keep = None; json!({"b": batch_abs, "res": "err", "out": []}) },
+			Err(()) => { *keep = None; json!({"b": batch_abs, "res": "panic", "out": []}) },
+		}
+	}
+
+	/// histories over a collection type C with items T; `form` selects the EncodeLike form of the items
+	pub fn drive_items<C, T>(ctx: &mut Ctx, cname: &str)
+	where
+		C: EncodeAppend<Item = T> + Reg,
+		T: Reg + Encode + Clone + EncodeLike<T>,
+		for<'a> &'a T: EncodeLike<T>,
+		Box<T>: EncodeLike<T>,
+	{
+		let tn = format!("{}::append", cname);
+		if !ctx.wants(&tn) { return }
+		let mut g = ctx.rng_for(&tn, 10);
+		let starts: Vec<usize> = vec![0, 0, 1, 2, 61, 62, 63, 64, 65];
+		for h in 0..(10 * ctx.scale) {
+			let mut m = header::<C>("app");
+			m.insert("tn".into(), json!(tn));
+			let nstart = *g.pick(&starts);
+			let start_items: Vec<T> = g.nested(|g| (0..nstart).map(|_| T::gen(g)).collect());
+			let from_empty = h % 3 == 0;
+			let mut cur: Vec<u8> = if from_empty { vec![] } else {
+				let mut b = ref_compact(nstart as u64);
+				for it in &start_items { b.extend_from_slice(&it.encode()); }
+				b
+			};
+			m.insert("start".into(), bytes_json(&cur));
+			m.insert("sv".into(), if from_empty { json!([]) } else { Value::Array(start_items.iter().map(|x| x.abs()).collect()) });
+			m.insert("garbage".into(), json!(false));
+			let mut steps = vec![];
+			for s in 0..(1 + g.below(4)) {
+				let bn = *g.pick(&[0usize, 1, 1, 2, 3, 5]);
+				let batch: Vec<T> = g.nested(|g| (0..bn).map(|_| T::gen(g)).collect());
+				let babs = Value::Array(batch.iter().map(|x| x.abs()).collect());
+				let mut keep = None;
+				let input = cur.clone();
+				let j = match (h + s) % 3 {
+					0 => step_json(babs, guarded(|| C::append_or_new(input, batch.iter())), &mut keep),
+					1 => step_json(babs, guarded(|| C::append_or_new(input, batch.iter().cloned().map(Box::new).collect::<Vec<_>>())), &mut keep),
+					_ => step_json(babs, guarded(|| C::append_or_new(input, batch.clone())), &mut keep),
+				};
+				steps.push(j);
+				match keep { Some(o) => cur = o, None => break }
+			}
+			m.insert("steps".into(), Value::Array(steps));
+			ctx.emit(&tn, Value::Object(m));
+		}
+		// garbage prefixes
+		for gb in [vec![1u8], vec![2, 0], vec![3, 0, 0, 0, 0], vec![7, 0, 0, 0, 0, 1], vec![253, 0], vec![255], vec![1, 0], vec![2, 0, 0, 0]] {
+			let mut m = header::<C>("app");
+			m.insert("tn".into(), json!(tn));
+			m.insert("start".into(), bytes_json(&gb));
+			m.insert("sv".into(), json!([]));
+			m.insert("garbage".into(), json!(true));
+			let batch: Vec<T> = (0..1).map(|_| T::gen(&mut g)).collect();
+			let mut keep = None;
+			let j = step_json(Value::Array(batch.iter().map(|x| x.abs()).collect()), guarded(|| C::append_or_new(gb.clone(), batch.iter())), &mut keep);
+			m.insert("steps".into(), json!([j]));
+			ctx.emit(&tn, Value::Object(m));
+		}
+	}
+
+	/// zero-sized items: counts on and around every prefix-width change and the 2^32 limit
+	pub fn drive_units<C>(ctx: &mut Ctx, cname: &str)
+	where
+		C: EncodeAppend<Item = ()> + Reg,
+	{
+		let tn = format!("{}::append", cname);
+		if !ctx.wants(&tn) { return }
+		let big = ctx.tier == "thorough";
+		let p30: u64 = 1 << 30;
+		let p32: u64 = 1 << 32;
+		// (start count or None for an empty buffer, batch sizes)
+		let mut cases: Vec<(Option<u64>, Vec<u64>)> = vec![
+			(None, vec![0, 1, 63, 1]), (None, vec![64, 16319, 1]), (None, vec![16383, 1, 1]), (None, vec![16384]),
+			(Some(0), vec![1, 62, 1, 1]), (Some(63), vec![0, 1]), (Some(62), vec![2]), (Some(16382), vec![1, 1, 1]),
+			(Some(16383), vec![1]), (Some(16380), vec![5]),
+			(Some(p30 - 2), vec![1, 1, 1]), (Some(p30 - 1), vec![1]), (Some(p30 - 1), vec![0, 2]), (Some(p30), vec![1]),
+			(Some(p32 - 3), vec![1, 1, 1]), (Some(p32 - 2), vec![2]), (Some(p32 - 1), vec![0, 1]), (Some(p32 - 1), vec![1]),
+			(Some(5), vec![p30 - 6, 1]), (Some(1), vec![p30]),
+		];
+		if big {
+			cases.extend(vec![
+				(Some(1), vec![p32]), (Some(0), vec![p32 - 1, 1]), (Some(1), vec![p32 - 1]), (None, vec![p32 - 1, 1]),
+				(None, vec![p32]), (Some(4), vec![p32 + 1]), (Some(p30), vec![3 * p30, 1]),
+			]);
+		} else {
+			cases.extend(vec![(Some(1), vec![p32]), (None, vec![p32]), (Some(0), vec![p32 - 1, 1])]);
+		}
+		for (start, batches) in cases {
+			let mut m = header::<C>("app");
+			m.insert("tn".into(), json!(tn));
+			let mut cur: Vec<u8> = match start { None => vec![], Some(n) => ref_compact(n) };
+			m.insert("start".into(), bytes_json(&cur));
+			m.insert("sv".into(), json!({"rep": digits(start.unwrap_or(0) as u128, 8)}));
+			m.insert("garbage".into(), json!(false));
+			let mut steps = vec![];
+			for bn in batches {
+				let babs = json!({"rep": digits(bn as u128, 8)});
+				let mut keep = None;
+				let input = cur.clone();
+				let n = bn as usize;
+				let j = step_json(babs, guarded(|| C::append_or_new(input, (0..n).map(|_| ()))), &mut keep);
+				steps.push(j);
+				match keep { Some(o) => cur = o, None => break }
+			}
+			m.insert("steps".into(), Value::Array(steps));
+			ctx.emit(&tn, Value::Object(m));
+		}
+	}
+}
+
+// ------------------------------------------------------------------ C06: construction histories
+
+pub mod hist {
+	use super::*;
+	use std::collections::{BTreeMap, BTreeSet, BinaryHeap, LinkedList, VecDeque};
+
+	fn emit<T: Reg>(ctx: &mut Ctx, ops: Vec<Value>, outs: Vec<Value>, slices: Vec<Value>) {
+		let mut m = header::<T>("hist");
+		m.insert("ops".into(), Value::Array(ops));
+		m.insert("outs".into(), Value::Array(outs));
+		m.insert("sl".into(), Value::Array(slices));
+		ctx.emit(&T::name(), Value::Object(m));
+	}
+	fn enc2<T: Encode>(v: &T) -> Value {
+		// encode twice: the same value must give the same bytes
+		let a = guarded(|| v.encode()).unwrap_or_else(|_| vec![0xde, 0xad]);
+		let b = guarded(|| v.encode()).unwrap_or_else(|_| vec![0xbe, 0xef]);
+		if a == b { bytes_json(&a) } else { json!(["nondeterministic"]) }
+	}
+
+	pub fn deque<T: Reg + Encode + Clone>(ctx: &mut Ctx) where VecDeque<T>: Reg {
+		let tn = <VecDeque<T>>::name();
+		if !ctx.wants(&tn) { return }
+		let mut g = ctx.rng_for(&tn, 11);
+		for _ in 0..(6 * ctx.scale) {
+			let mut d: VecDeque<T> = if g.chance(1, 2) { VecDeque::new() } else { VecDeque::with_capacity(1 + g.below(8)) };
+			let (mut ops, mut outs) = (vec![], vec![]);
+			let n = 10 + g.below(30);
+			for _ in 0..n {
+				let op = match g.below(16) {
+					0..=3 => { let x = g.nested(T::gen); let j = json!(["pb", x.abs()]); d.push_back(x); j },
+					4..=6 => { let x = g.nested(T::gen); let j = json!(["pf", x.abs()]); d.push_front(x); j },
+					7 => { d.pop_back(); json!(["ob"]) },
+					8 => { d.pop_front(); json!(["of"]) },
+					9 => { let k = g.below(d.len() + 1); d.rotate_left(k); json!(["rl", k]) },
+					10 => { let k = g.below(d.len() + 1); d.rotate_right(k); json!(["rr", k]) },
+					11 => { d.make_contiguous(); json!(["mc"]) },
+					12 => { let k = g.below(20); d.reserve(k); json!(["rs", k]) },
+					13 => { if g.chance(1, 2) { d.shrink_to_fit(); json!(["sh"]) } else { let k = g.below(d.len() + 2); d.truncate(k); json!(["tr", k]) } },
+					14 => { let i = g.below(d.len() + 1); let x = g.nested(T::gen); let j = json!(["in", i, x.abs()]); d.insert(i, x); j },
+					_ => {
+						if d.len() >= 2 && g.chance(1, 2) { let (i, j) = (g.below(d.len()), g.below(d.len())); d.swap(i, j); json!(["sw", i, j]) }
+						else if !d.is_empty() { let i = g.below(d.len()); d.remove(i); json!(["rm", i]) }
+						else { json!(["mc"]) }
+					},
+				};
+				ops.push(op);
+				outs.push(enc2(&d));
+			}
+			emit::<VecDeque<T>>(ctx, ops, outs, vec![]);
+		}
+	}
+
+	pub fn vector<T: Reg + Encode + Clone>(ctx: &mut Ctx) where Vec<T>: Reg {
+		let tn = <Vec<T>>::name();
+		if !ctx.wants(&tn) { return }
+		let mut g = ctx.rng_for(&tn, 12);
+		for _ in 0..(3 * ctx.scale) {
+			let mut d: Vec<T> = Vec::new();
+			let (mut ops, mut outs) = (vec![], vec![]);
+			for _ in 0..(8 + g.below(20)) {
+				let op = match g.below(8) {
+					0..=2 => { let x = g.nested(T::gen); let j = json!(["pb", x.abs()]); d.push(x); j },
+					3 => { d.pop(); json!(["ob"]) },
+					4 => { let k = g.below(40); d.reserve(k); json!(["rs", k]) },
+					5 => { d.shrink_to_fit(); json!(["sh"]) },
+					6 => { let k = g.below(d.len() + 2); d.truncate(k); json!(["tr", k]) },
+					_ => { let i = g.below(d.len() + 1); let x = g.nested(T::gen); let j = json!(["in", i, x.abs()]); d.insert(i, x); j },
+				};
+				ops.push(op);
+				outs.push(enc2(&d));
+			}
+			emit::<Vec<T>>(ctx, ops, outs, vec![]);
+		}
+	}
+
+	pub fn list<T: Reg + Encode + Clone>(ctx: &mut Ctx) where LinkedList<T>: Reg {
+		let tn = <LinkedList<T>>::name();
+		if !ctx.wants(&tn) { return }
+		let mut g = ctx.rng_for(&tn, 13);
+		for _ in 0..(3 * ctx.scale) {
+			let mut d: LinkedList<T> = LinkedList::new();
+			let (mut ops, mut outs) = (vec![], vec![]);
+			for _ in 0..(8 + g.below(20)) {
+				let op = match g.below(7) {
+					0 | 1 => { let x = g.nested(T::gen); let j = json!(["pb", x.abs()]); d.push_back(x); j },
+					2 | 3 => { let x = g.nested(T::gen); let j = json!(["pf", x.abs()]); d.push_front(x); j },
+					4 => { d.pop_back(); json!(["ob"]) },
+					5 => { let i = g.below(d.len() + 1); let _ = d.split_off(i); json!(["so", i]) },
+					_ => { let xs: Vec<T> = g.nested(|g| (0..g.below(3)).map(|_| T::gen(g)).collect());
+						let j = json!(["ap", xs.iter().map(|x| x.abs()).collect::<Vec<_>>()]); let mut o: LinkedList<T> = xs.into_iter().collect(); d.append(&mut o); j },
+				};
+				ops.push(op);
+				outs.push(enc2(&d));
+			}
+			emit::<LinkedList<T>>(ctx, ops, outs, vec![]);
+		}
+	}
+
+	pub fn map<K: Reg + Encode + Ord + Clone, V: Reg + Encode + Clone>(ctx: &mut Ctx) where BTreeMap<K, V>: Reg {
+		let tn = <BTreeMap<K, V>>::name();
+		if !ctx.wants(&tn) { return }
+		let mut g = ctx.rng_for(&tn, 14);
+		for _ in 0..(4 * ctx.scale) {
+			let mut d: BTreeMap<K, V> = BTreeMap::new();
+			let mut keys: Vec<K> = vec![];
+			let (mut ops, mut outs) = (vec![], vec![]);
+			for _ in 0..(8 + g.below(25)) {
+				let op = if g.chance(2, 3) || keys.is_empty() {
+					let k = if !keys.is_empty() && g.chance(1, 3) { g.pick(&keys).clone() } else { g.nested(K::gen) };
+					let v = g.nested(V::gen);
+					let j = json!(["mi", k.abs(), v.abs()]);
+					keys.push(k.clone());
+					d.insert(k, v);
+					j
+				} else {
+					let k = g.pick(&keys).clone();
+					d.remove(&k);
+					json!(["mr", k.abs()])
+				};
+				ops.push(op);
+				outs.push(enc2(&d));
+			}
+			emit::<BTreeMap<K, V>>(ctx, ops, outs, vec![]);
+		}
+	}
+
+	pub fn set<T: Reg + Encode + Ord + Clone>(ctx: &mut Ctx) where BTreeSet<T>: Reg {
+		let tn = <BTreeSet<T>>::name();
+		if !ctx.wants(&tn) { return }
+		let mut g = ctx.rng_for(&tn, 15);
+		for _ in 0..(4 * ctx.scale) {
+			let mut d: BTreeSet<T> = BTreeSet::new();
+			let mut keys: Vec<T> = vec![];
+			let (mut ops, mut outs) = (vec![], vec![]);
+			for _ in 0..(8 + g.below(25)) {
+				let op = if g.chance(2, 3) || keys.is_empty() {
+					let k = if !keys.is_empty() && g.chance(1, 3) { g.pick(&keys).clone() } else { g.nested(T::gen) };
+					let j = json!(["si", k.abs()]);
+					keys.push(k.clone());
+					d.insert(k);
+					j
+				} else {
+					let k = g.pick(&keys).clone();
+					d.remove(&k);
+					json!(["sr", k.abs()])
+				};
+				ops.push(op);
+				outs.push(enc2(&d));
+			}
+			emit::<BTreeSet<T>>(ctx, ops, outs, vec![]);
+		}
+	}
+
+	pub fn heap<T: Reg + Encode + Ord + Clone>(ctx: &mut Ctx) where BinaryHeap<T>: Reg {
+		let tn = <BinaryHeap<T>>::name();
+		if !ctx.wants(&tn) { return }
+		let mut g = ctx.rng_for(&tn, 16);
+		for _ in 0..(3 * ctx.scale) {
+			let mut d: BinaryHeap<T> = BinaryHeap::new();
+			let (mut ops, mut outs) = (vec![], vec![]);
+			for _ in 0..(6 + g.below(14)) {
+				let op = if g.chance(2, 3) || d.is_empty() {
+					let x = g.nested(T::gen); let j = json!(["pb", x.abs()]); d.push(x); j
+				} else {
+					let x = d.pop().unwrap(); json!(["rv", x.abs()])
+				};
+				ops.push(op);
+				outs.push(enc2(&d));
+			}
+			emit::<BinaryHeap<T>>(ctx, ops, outs, vec![]);
+		}
+	}
+
+	pub fn string(ctx: &mut Ctx) {
+		let tn = String::name();
+		if !ctx.wants(&tn) { return }
+		let mut g = ctx.rng_for("String-hist", 17);
+		for _ in 0..(4 * ctx.scale) {
+			let mut d = String::new();
+			let (mut ops, mut outs) = (vec![], vec![]);
+			for _ in 0..(8 + g.below(20)) {
+				let op = match g.below(6) {
+					0..=2 => { let s = String::gen_len(&mut g, 1 + 0).unwrap_or_default(); let c = String::gen(&mut g); let add = if c.is_empty() { s } else { c };
+						let j = json!(["ap", bytes_json(add.as_bytes())]); d.push_str(&add); j },
+					3 => { d.pop(); json!(["tr", d.len()]) },
+					4 => { let k = g.below(64); d.reserve(k); json!(["rs", k]) },
+					_ => { d.shrink_to_fit(); json!(["sh"]) },
+				};
+				ops.push(op);
+				outs.push(enc2(&d));
+			}
+			emit::<String>(ctx, ops, outs, vec![]);
+		}
+	}
+
+	#[cfg(feature = "bit-vec")]
+	pub fn bits<T: bitvec::store::BitStore + Reg + Encode, O: bitvec::order::BitOrder>(ctx: &mut Ctx)
+	where bitvec::vec::BitVec<T, O>: Reg + Encode, bitvec::slice::BitSlice<T, O>: Encode {
+		use bitvec::vec::BitVec;
+		let tn = <BitVec<T, O>>::name();
+		if !ctx.wants(&tn) { return }
+		let mut g = ctx.rng_for(&tn, 18);
+		for _ in 0..(4 * ctx.scale) {
+			let mut d: BitVec<T, O> = BitVec::new();
+			let (mut ops, mut outs, mut sls) = (vec![], vec![], vec![]);
+			for _ in 0..(10 + g.below(40)) {
+				let op = match g.below(10) {
+					0..=5 => { let b = g.chance(2, 3); d.push(b); json!(["bp", if b { 1 } else { 0 }]) },
+					6 => { d.pop(); json!(["ob"]) },
+					7 => { let k = g.below(d.len() + 2); d.truncate(k); json!(["tr", k]) },
+					8 => {
+						// replace by a sub-slice: drops a prefix, so the head sits at a bit offset
+						let a = g.below(d.len() + 1); let b = a + g.below(d.len() - a + 1);
+						d.truncate(b); d.drain(..a);
+						json!(["bs", a, b])
+					},
+					_ => { let k = g.below(70); d.reserve(k); json!(["rs", k]) },
+				};
+				ops.push(op);
+				outs.push(enc2(&d));
+				// encode a borrowed sub-slice at an arbitrary bit offset as well
+				let a = g.below(d.len() + 1); let b = a + g.below(d.len() - a + 1);
+				sls.push(json!([a, b, enc2(&&d[a..b])]));
+			}
+			emit::<BitVec<T, O>>(ctx, ops, outs, sls);
 		}
 	}
 }
